@@ -22,6 +22,7 @@ Template directives (lines starting with //@):
 Exit status / exceptions: ExtractError => the caller reports exit 2 (lost anchor /
 unsupported), never a violation.
 """
+import collections
 import json
 import os
 import re
@@ -207,6 +208,7 @@ class Unit:
         self.vacuity = False
         self.twins = []
         self.lemmas = {}
+        self.closure_counts = {}
         self.inline_helpers = set()  # names of source functions unknown to the template, to be inlined mechanically at call sites
         self.inlined = []       # (caller selector, helper name)
         self.extra_consts = []  # names of source-level `const` items to import mechanically (a change introduced them)
@@ -414,6 +416,46 @@ class Unit:
         text = re.sub(r'@SITEK:(\w+)@', number_k, text)
         return text
 
+    def closure_baseline(self):
+        """closure literals per extracted function on the tree the templates were written for (units/closures.json,
+        regenerated with `extract.py --closure-baseline`)"""
+        if getattr(self, '_clb', None) is None:
+            p = os.path.join(self.units_dir, 'closures.json')
+            try:
+                self._clb = json.load(open(p)).get(self.name, {})
+            except (OSError, ValueError):
+                self._clb = None
+            if self._clb is None:
+                self._clb = {}
+                self._clb_missing = True
+        if getattr(self, '_clb_missing', False):
+            return collections.defaultdict(lambda: 1 << 30)
+        return self._clb
+
+    def known_fn_names(self):
+        """names of all functions the unit's templates define or extract (FN / STUBFN selectors, `fn x` in template text)"""
+        if getattr(self, '_known', None) is None:
+            known = set()
+            seen = set()
+            def scan(path):
+                if path in seen or not os.path.exists(path):
+                    return
+                seen.add(path)
+                t = open(path).read()
+                for m in re.finditer(r'^\s*//@INCLUDE\s+(\S+)', t, re.M):
+                    scan(os.path.join(self.units_dir, m.group(1)))
+                for m in re.finditer(r'^\s*//@(?:FN|STUBFN)\s+\S+\s+(.*)$', t, re.M):
+                    rest = m.group(1)
+                    sel = re.sub(r'\s*(rules|rename|props|novac|attr|from)=\S+', '', rest).strip()
+                    known.add(sel.rsplit('::', 1)[-1])
+                    rn = re.search(r'rename=(\S+)', rest)
+                    if rn:
+                        known.add(rn.group(1))
+                known.update(re.findall(r'\bfn\s+([A-Za-z_][A-Za-z_0-9]*)', t))
+            scan(os.path.join(self.units_dir, self.name + '.vrs'))
+            self._known = known
+        return self._known
+
     # -------- mechanical inlining of helper functions the template does not know ----------
     def inline_unknown_helpers(self, fs, body, items, text):
         """A change extracted a few lines of an extracted function into a new private helper (or started calling one
@@ -434,10 +476,15 @@ class Unit:
                 toks = [t.text for t in rsx.lex(hbody)]
                 if any(t in ('return', '?', 'loop', 'while', 'for', 'break', 'continue') for t in toks):
                     continue
-                m = re.search(r'\bfn\s+%s\s*(<[^>]*>)?\s*\((.*)\)\s*(->\s*[^{]+)?$' % re.escape(h), ' '.join(hsig.split()), re.S)
-                if not m or m.group(1):
-                    continue
-                params = split_top(m.group(2))
+                flat = ' '.join(hsig.split())
+                m = re.search(r'\bfn\s+%s\s*\(' % re.escape(h), flat)
+                if not m or ' where ' in flat:
+                    continue          # generic helpers / where clauses are not inlined
+                depth, k = 1, m.end()
+                while k < len(flat) and depth:
+                    depth += {'(': 1, ')': -1}.get(flat[k], 0)
+                    k += 1
+                params = split_top(flat[m.end():k - 1])
                 has_self = bool(params) and re.match(r'^(&\s*(mut\s+)?)?(mut\s+)?self$', params[0].strip()) is not None
                 plain = []
                 ok = True
@@ -460,7 +507,8 @@ class Unit:
                         # skip matches that are part of a longer path/receiver, e.g. `x.h(..)` for head `h`
                         def standalone(mm):
                             before = body[:mm[0]].rstrip()
-                            return not before or not re.match(r'[\w.:]', before[-1])
+                            # not `x.h(..)` on another receiver, not a longer path `a::h(..)`, not the definition itself
+                            return not (before.endswith('.') or before.endswith('::') or re.search(r'\bfn$', before))
                         ms = [mm for mm in ms if standalone(mm)]
                         if not ms:
                             break
@@ -468,9 +516,27 @@ class Unit:
                         args = split_top(binds.get('args', ''))
                         if len(args) != len(plain):
                             break
-                        pre = ''.join('let __h_%s = %s; ' % (pn, av.strip()) for (_, pn, _), av in zip(plain, args))
-                        pre += ''.join('let %s%s: %s = __h_%s; ' % (mu, pn, ty, pn) for (mu, pn, ty) in plain)
-                        body = body[:a] + '{ ' + pre + '\n' + inner + '\n }' + body[b:]
+                        pre = ''
+                        for (mu, pn, ty), av in zip(plain, args):
+                            if av.strip() == pn and not mu:
+                                continue          # parameter bound to the caller's variable of the same name
+                            pre += 'let __h_%s = %s; ' % (pn, av.strip())
+                        for (mu, pn, ty), av in zip(plain, args):
+                            if av.strip() == pn and not mu:
+                                continue
+                            pre += 'let %s%s: %s = __h_%s; ' % (mu, pn, ty, pn)
+                        # a unit helper called as a whole statement is inlined without braces, so that ghost variables the
+                        # template declares at anchors inside it stay visible - unless one of its locals would shadow a
+                        # name the caller uses afterwards
+                        rest = body[b:]
+                        locals_ = set(re.findall(r'\blet\s+(?:mut\s+)?([A-Za-z_][A-Za-z_0-9]*)', inner)) | \
+                            {pn for (mu, pn, ty), av in zip(plain, args) if not (av.strip() == pn and not mu)}
+                        is_stmt = rest.lstrip().startswith(';') and re.search(r'[;{}]\s*$', body[:a].rstrip() + ' ' if body[:a].rstrip() else ';')
+                        clash = any(re.search(r'\b%s\b' % re.escape(n), rest) for n in locals_)
+                        if is_stmt and not clash and '->' not in flat[k:]:
+                            body = body[:a] + pre + '\n' + inner + '\n' + rest.lstrip()[1:]
+                        else:
+                            body = body[:a] + '{ ' + pre + '\n' + inner + '\n }' + body[b:]
                         self.inlined.append((fs.selector, h))
                         changed = True
             if not changed:
@@ -565,13 +631,20 @@ class Unit:
         # --- body
         body = strip_attrs_in_body(body)
         body = strip_macros(body)
+        body0 = body
         if self.inline_helpers:
             body = self.inline_unknown_helpers(fs, body, items, text)
         body = self.apply_rules(body, 'body', names, fname)
         fs.valued = ('->' in sig) and not re.search(r'->\s*\(\s*r\s*:\s*\(\s*\)\s*\)', sig)
         stub_reason = None
+        ncl = count_closures(body)
+        self.closure_counts['%s|%s' % (fs.selector, fname)] = ncl
         if fs.selector in self.stub_out or fname in self.stub_out:
             stub_reason = 'construct not supported by the verifier'
+        elif ncl > self.closure_baseline().get('%s|%s' % (fs.selector, fname), 0):
+            # Verus knows nothing about the result of a closure literal that carries no specification; verifying the
+            # function anyway could turn a harmless rewrite (`if c { Some(x) } else { None }` -> `c.then(|| x)`) into an alarm
+            stub_reason = 'closure literal without a specification (the unit has no rule for it)'
         else:
             try:
                 body = self.splice(fs, body)
@@ -579,6 +652,28 @@ class Unit:
                 if 'lost anchor' not in str(e):
                     raise
                 stub_reason = str(e)
+                # the anchored statement may have moved into a helper the template does not know: inline such helpers
+                # (same file, called here, defined neither by the template nor by another //@FN) and try again
+                known = self.known_fn_names()
+                called = set(re.findall(r'\b([a-z_][a-z_0-9]*)\s*\(', body0))
+                cand = {it2.name for it2 in items if it2.kind == 'fn' and it2.has_body and not it2.test} & called
+                cand -= known
+                cand -= self.inline_helpers
+                if cand:
+                    saved = set(self.inline_helpers)
+                    self.inline_helpers = saved | cand
+                    n_inl = len(self.inlined)
+                    try:
+                        b2 = self.inline_unknown_helpers(fs, body0, items, text)
+                        if len(self.inlined) > n_inl:
+                            self.site_counter = 0
+                            b2 = self.apply_rules(b2, 'body', names, fname)
+                            body = self.splice(fs, b2)
+                            stub_reason = None
+                    except ExtractError:
+                        pass
+                    finally:
+                        self.inline_helpers = saved
         if stub_reason is not None:
             # per-function isolation: this body cannot be brought under the verifier as it stands (restructured code: a
             # proof anchor is gone, or an unsupported construct).  Its contract is kept as a stub so that the rest of the
@@ -838,6 +933,26 @@ ASSUME_PATTERNS = [
 ]
 
 
+def count_closures(text):
+    """number of closure literals `|args| body` / `|| body` / `move |..|` in a piece of Rust text (token heuristic: a `|` or
+    `||` that starts an expression)"""
+    toks = rsx.lex(text)
+    n = 0
+    i = 0
+    starters = {'(', ',', '=', '{', ';', '=>', 'return', 'move', '[', '&&', ':', '+=', '?', '!'}
+    while i < len(toks):
+        t = toks[i].text
+        if t in ('|', '||') and i > 0 and toks[i - 1].text in starters:
+            n += 1
+            if t == '|':
+                # skip the parameter list up to the closing `|`
+                i += 1
+                while i < len(toks) and toks[i].text != '|':
+                    i += 1
+        i += 1
+    return n
+
+
 def split_top(argtext):
     """split a parameter / argument list at top-level commas"""
     out, depth, cur = [], 0, ''
@@ -892,6 +1007,7 @@ def build(unit_name, repo, units_dir, out_dir, vacuity=False, stub_out=None, ext
         'twins': u.twins,
         'stubbed': u.stubbed,
         'inlined': u.inlined,
+        'closure_counts': u.closure_counts,
         'lemmas': u.lemmas,
         'sites': u.sites,
     }
